@@ -21,6 +21,40 @@ RA_RANGE = {'uniform': (0.0, TWO_PI), 'uniform_range': (1.0, 2.5), 'i3time': (0.
             'time': (0.0, TWO_PI)}
 
 
+def ra_range_of(spec, scr):
+    """the configured RA range of a scrambling method in this world (`uniform_range`: taken from the spec)"""
+    if scr == 'uniform_range':
+        return tuple(float(x) for x in spec.get('ra_range', RA_RANGE['uniform_range']))
+    return RA_RANGE[scr]
+
+
+def gen_ra_range(rng):
+    """legal ranges of UniformRAScramblingMethod: inside [0, 2pi), straddling 0, straddling 2pi, entirely below 0 /
+    above 2pi, zero width, tiny width, not representable in float32"""
+    k = rng.choice(['inside', 'inside', 'straddle0', 'straddle0', 'straddle2pi', 'straddle2pi', 'below', 'above',
+                    'zero', 'tiny', 'wide'])
+    if k == 'inside':
+        lo = rng.uniform(0, 5.5)
+        return [lo, lo + rng.uniform(0.01, TWO_PI - lo - 1e-3)]
+    if k == 'straddle0':
+        return rng.choice([[-0.4, 0.4], [-rng.uniform(0.01, 3), rng.uniform(0.01, 3)]])
+    if k == 'straddle2pi':
+        return rng.choice([[6.0, 6.6], [TWO_PI - rng.uniform(0.01, 2), TWO_PI + rng.uniform(0.01, 2)]])
+    if k == 'below':
+        hi = -rng.uniform(0.0, 3)
+        return [hi - rng.uniform(0.01, 4), hi]
+    if k == 'above':
+        lo = TWO_PI + rng.uniform(0.0, 3)
+        return [lo, lo + rng.uniform(0.01, 4)]
+    if k == 'zero':
+        x = rng.choice([0.0, 1.25, -0.4, 6.6, TWO_PI])
+        return [x, x]
+    if k == 'tiny':
+        x = rng.choice([0.0, 1.0, -0.4, 6.6, 3.0])
+        return [x, rng.choice([float(np.nextafter(x, np.inf)), x + 1e-12, x + 1e-7])]
+    return [-rng.uniform(0, 10), TWO_PI + rng.uniform(0, 10)]
+
+
 def enc(arr):
     """value encoding of the model: bool -> 0/1, ints -> the integer, floats -> float64 bit pattern"""
     arr = np.asarray(arr)
@@ -133,7 +167,7 @@ class World:
         tg = TimeGenerator(LivetimeTimeGenerationMethod(self.lt))
         self.scr = {
             'uniform': lambda: UniformRAScramblingMethod(),
-            'uniform_range': lambda: UniformRAScramblingMethod(ra_range=RA_RANGE['uniform_range']),
+            'uniform_range': lambda: UniformRAScramblingMethod(ra_range=ra_range_of(spec, 'uniform_range')),
             'i3time': lambda: I3TimeScramblingMethod(tg),
             'seasonal': lambda: I3SeasonalVariationTimeScramblingMethod(self.data),
             'time': lambda: TimeScramblingMethod(timegen=tg, hor_to_equ_transform=lambda azi, zen, mjd: (
@@ -232,7 +266,7 @@ class World:
 
 def gen_spec(rng):
     return {'data_seed': rng.randrange(10**6), 'n_exp': rng.choice([1, 2, 3, 5, 8, 13]), 'n_mc': rng.choice([2, 4, 9, 20]),
-            'narrow': rng.random() < 0.6, 'extra': True,
+            'narrow': rng.random() < 0.6, 'extra': True, 'ra_range': gen_ra_range(rng),
             'mc_variant': {'scr': rng.choice([None, 'uniform', 'i3time', 'uniform_range']), 'presel': rng.random() < 0.4},
             'trial': {'index': rng.choice([None, 'run', 'run', 'time']), 'pre': rng.random() < 0.5,
                       'stat': rng.random() < 0.7, 'sel': rng.random() < 0.4}}
